@@ -1,6 +1,6 @@
 CONSTANTS N = 2  D = 4  MaxExtra = 2
   ShapeIds = {"onesided"}
-  Vals = {0, 3}  Sparse = {FALSE, TRUE}
+  Vals = {3}  Sparse = {FALSE, TRUE}
 INIT Init
 NEXT NextGen
 CONSTRAINT Emit
